@@ -192,7 +192,7 @@ def sample_params(variant, rng):
         p = [kappa, mu, Jm]
         meta["Jm"] = Jm
     elif par == "j2":
-        Y0 = E * 10.0 ** rng.uniform(-3.3, -0.7)
+        Y0 = E * 10.0 ** rng.uniform(-5.0, -0.7)      # yield strains down to 1e-5 (very soft / non-dimensionalised models)
         h = dict(model=m["hard"], Y0=Y0, rate=m["rate"])
         if m["hard"] == "linear":
             h["H"] = 0.0 if rng.random() < 0.15 else E * 10.0 ** rng.uniform(-3, -0.5)
